@@ -232,6 +232,12 @@ func (c *Ctx) c15General() {
 		mk(r("S", gast.S(gast.Star(gast.C(gast.S(gast.NotE(gast.Ref("Kw")), gast.Ref("Id")), gast.Ref("Kw"), gast.S(gast.NotE(gast.S(gast.Cl(&gast.ClassSpec{Chars: []rune("+-")}), dig())), gast.Cl(gast.Chars("+-*/"))), gast.S(gast.Opt(gast.Cl(gast.Chars("+-"))), gast.Plus(dig())), gast.L(" "))), gast.Star(gast.Dot()))),
 			r("Kw", gast.S(gast.C(gast.L("if"), gast.L("in")), gast.NotE(az()))), r("Id", gast.S(az(), gast.Star(gast.C(az(), dig()))))),
 	}
+	// classes that stand only in a recovery expression (written there, or a leaf rule that -optimize-grammar
+	// inlines there), next to classes elsewhere; the label is thrown on ordinary inputs
+	gs = append(gs,
+		mk(r("S", gast.S(gast.Ref("It"), gast.Star(gast.S(gast.L(","), gast.Ref("It"))), gast.NotE(gast.Dot()))),
+			r("It", gast.Rec(gast.C(gast.Plus(az()), gast.Thr("L1")), gast.Star(gast.Cl(&gast.ClassSpec{Chars: []rune(","), Inverted: true})), "L1"))),
+		mk(r("S", gast.S(gast.Star(gast.C(gast.Rec(gast.S(gast.L("<"), gast.C(gast.Plus(dig()), gast.Thr("L1")), gast.L(">")), gast.S(gast.Star(gast.Cl(gast.Chars("ab_"))), gast.Opt(gast.Cl(gast.Chars(">")))), "L1"), gast.L(" "))), gast.Star(gast.Dot())))))
 	p := pegProfile()
 	p.W[gast.Class] = 30
 	p.W[gast.Not] = 14
